@@ -285,6 +285,36 @@ _get_empty_array_position_(struct qb_poll_source *s)
 	return install_pos;
 }
 
+/*
+ * There is one entry per descriptor number (epoll refuses a second
+ * registration of an open descriptor).  The add of fd succeeded, so an older
+ * entry that still carries this number belongs to a descriptor that was
+ * closed without qb_loop_poll_del() (e.g. in its own callback, which is
+ * about to return -1) and whose number has been reused.  Retire it, otherwise
+ * qb_loop_poll_mod() and qb_loop_poll_del(), which look entries up by
+ * number, act on it instead of on the new entry.
+ */
+static void
+_poll_retire_stale_entries_(struct qb_loop *l, struct qb_poll_source *s,
+			    struct qb_poll_entry *new_pe)
+{
+	struct qb_poll_entry *pe;
+	int32_t i;
+
+	for (i = 0; i < s->poll_entry_count; i++) {
+		assert(qb_array_index(s->poll_entries, i, (void **)&pe) == 0);
+		if (pe == new_pe || pe->ufd.fd != new_pe->ufd.fd ||
+		    pe->state == QB_POLL_ENTRY_EMPTY ||
+		    pe->state == QB_POLL_ENTRY_DELETED) {
+			continue;
+		}
+		if (pe->state == QB_POLL_ENTRY_JOBLIST) {
+			qb_loop_level_item_del(&l->level[pe->p], &pe->item);
+		}
+		_poll_entry_mark_deleted_(pe);
+	}
+}
+
 static int32_t
 _poll_add_(struct qb_loop *l,
 	   enum qb_loop_priority p,
@@ -316,6 +346,7 @@ _poll_add_(struct qb_loop *l,
 	pe->runs = 0;
 	res = s->driver.add(s, pe, fd, events);
 	if (res == 0) {
+		_poll_retire_stale_entries_(l, s, pe);
 		*pe_pt = pe;
 		return 0;
 	} else {
